@@ -425,3 +425,62 @@ func Harness_C02_Rest() {
 		}
 	}
 }
+
+// mixins: the mixing application gets the mixed-in application's types, except where it
+// declares a type of that name itself; nothing else changes
+func Harness_C02_Mixins() {
+	hostHasItem := nd.Bool("host-declares-Item-itself")
+	hostHasOwn := nd.Bool("host-declares-Own")
+	baseHasExtra := nd.Bool("base-declares-Extra")
+	hostFirst := nd.Bool("host-before-base-in-the-text")
+	base := "Base [~abstract]:\n    !type Item:\n        code <: string\n"
+	if baseHasExtra {
+		base += "    !type Extra:\n        x <: int\n"
+	}
+	host := "Shop:\n    -|> Base\n"
+	if hostHasItem {
+		host += "    !type Item:\n        id <: int\n        label <: string?\n"
+	}
+	if hostHasOwn {
+		host += "    !type Own:\n        o <: int\n"
+	}
+	if !hostHasItem && !hostHasOwn {
+		host += "    ep:\n        ...\n"
+	}
+	text := base + "\n" + host
+	if hostFirst {
+		text = host + "\n" + base
+	}
+	mod, err, crashed, _ := feCompileText(text)
+	nd.Assert("mixins:compiles", !crashed && err == nil && mod != nil)
+	if crashed || err != nil || mod == nil {
+		return
+	}
+	shop, b := mod.Apps["Shop"], mod.Apps["Base"]
+	nd.Assert("mixins:apps", shop != nil && b != nil && len(mod.Apps) == 2)
+	if shop == nil || b == nil {
+		return
+	}
+	want := 1
+	if hostHasOwn {
+		want++
+	}
+	if baseHasExtra {
+		want++
+	}
+	nd.Assert("mixins:exactly-own-plus-mixed-in-types", len(shop.Types) == want)
+	item := shop.Types["Item"].GetTuple().GetAttrDefs()
+	if hostHasItem {
+		nd.Assert("mixins:own-declaration-wins-over-mixed-in-type", len(item) == 2 && item["id"] != nil && item["label"] != nil && item["label"].Opt)
+	} else {
+		nd.Assert("mixins:mixed-in-type-copied", len(item) == 1 && item["code"] != nil)
+	}
+	if baseHasExtra {
+		nd.Assert("mixins:every-mixed-in-type-copied", shop.Types["Extra"].GetTuple().GetAttrDefs()["x"] != nil)
+	}
+	if hostHasOwn {
+		nd.Assert("mixins:own-type-kept", shop.Types["Own"].GetTuple().GetAttrDefs()["o"] != nil)
+	}
+	bitem := b.Types["Item"].GetTuple().GetAttrDefs()
+	nd.Assert("mixins:mixed-in-application-unchanged", len(bitem) == 1 && bitem["code"] != nil && len(shop.Mixin2) == 1)
+}
